@@ -2,7 +2,9 @@ import Driver.Proto
 import Driver.C20
 import Driver.C06
 import Driver.C07
+import Driver.C11
 import Driver.C13
+import Driver.C15
 import Driver.C16
 import Driver.C17
 import Driver.C18
@@ -19,7 +21,9 @@ def dispatch (line : String) : String :=
     | "C20" => Driver.C20.handle kv
     | "C06" => Driver.C06.handle kv
     | "C07" | "C08" => Driver.C07.handle prop kv
+    | "C11" => Driver.C11.handle kv
     | "C13" => Driver.C13.handle kv
+    | "C15" => Driver.C15.handle kv
     | "C16" => Driver.C16.handle kv
     | "C17" => Driver.C17.handle kv
     | "C18" => Driver.C18.handle kv
